@@ -141,9 +141,14 @@ func c07body(c *xplore.Ctx) (text string, form string, fs []ev.Finding, skipped 
 			return def, ""
 		}
 		name := fmt.Sprintf("p%d", len(subs)+1)
-		if len(subs) == 0 && c.ChooseC(gram.CSpell, 2) == 1 {
-			name = "p q"
-			quotedName = true
+		if len(subs) == 0 {
+			switch c.ChooseC(gram.CSpell, 3) {
+			case 1:
+				name = "p q"
+				quotedName = true
+			case 2:
+				name = "\x00" // a placeholder without a name: `$`; the value is bound under the empty name
+			}
 		}
 		b := c.Free(len(c07binds))
 		subs = append(subs, sub{name, b})
@@ -169,9 +174,17 @@ func c07body(c *xplore.Ctx) (text string, form string, fs []ev.Finding, skipped 
 		}
 		b := c07binds[subs[k].b]
 		k++
-		desc = append(desc, fmt.Sprintf("$%s=%s", t.Text, b.name))
+		key := t.Text
+		if key == "\x00" {
+			key = ""
+		}
+		desc = append(desc, fmt.Sprintf("$%s=%s", key, b.name))
 		if b.value != nil {
-			params[t.Text] = b.value()
+			params[key] = b.value()
+		}
+		if key == "" {
+			bindable = false // an empty placeholder is an error whatever is bound under ""
+			continue
 		}
 		if !b.ok {
 			bindable = false
